@@ -1,5 +1,6 @@
 """Compile generated harness TUs to LLVM IR (for the encoder) and to native objects (validation / replay)."""
 import os, subprocess, hashlib, shutil, tempfile, json, time
+from . import proc
 
 FASTOR_ROOT = os.environ.get('FASTOR_ROOT', '/repo')
 VERIF = os.path.dirname(os.path.dirname(os.path.abspath(__file__)))
@@ -40,13 +41,13 @@ def workdir(tag):
 def compile_ir(src_path, cfg, out_path, timeout=600):
     cmd = ['clang++-14'] + cfg.ir_flags() + ['-ferror-limit=0', '-S', '-emit-llvm', '-o', out_path, src_path]
     t = time.time()
-    p = subprocess.run(cmd, capture_output=True, text=True, timeout=timeout)
+    p = proc.run(cmd, timeout=timeout)
     return p.returncode == 0, p.stderr, cmd, time.time() - t
 
 
 def compile_native(src_path, cfg, out_path, compiler='clang++-14', extra=(), timeout=600):
     cmd = [compiler] + cfg.flags() + list(extra) + ['-o', out_path, src_path]
-    p = subprocess.run(cmd, capture_output=True, text=True, timeout=timeout)
+    p = proc.run(cmd, timeout=timeout)
     return p.returncode == 0, p.stderr, cmd
 
 
